@@ -138,51 +138,55 @@ type Config struct {
 
 // Sim is one simulation.
 type Sim struct {
-	Cfg           Config
-	Tape          *Tape
-	tasks         []*Task
-	cur           *Task
-	ctlR, ctlW    int
-	now           int64
-	Steps         int64
-	preemptIn     int64
-	events        []event
-	evSeq         uint64
-	ports         []*port
-	outbox        []*Capture
-	ended         []*Task
-	Inc           int
-	Hooks         Hooks
-	stop          bool
-	StopReason    string
-	Verdicts      []Verdict
-	ifaces        []Iface
-	pipePool      [][2]int
-	trace         []TraceRec
-	TraceOn       bool
-	switches      uint64 // hash of context-switch sequence while >=2 runnable
-	Switches      int64
-	crashAt       int64 // global step at which to crash (0 = none)
-	crashSites    []bool
-	crashFn       func(t *Task)
-	stallAt       int64
-	stallNs       int64
-	stallSites    []bool
-	Probes        []int64
-	files         []*simFile
-	watchers      []*Watcher
-	sqlFaultIn    int64 // countdown of sql driver calls until an injected failure; 0 = none
-	sqlFaultKind  int
-	SQLFaults     int64
-	dbs           []*trackedDB
-	FaultsFired   [NumFaultKinds]int64
-	poolReuse     int // 0: fifo fresh (no reuse), 1: PRNG choice, 2: always reuse most recent
-	fakeFD        int
-	l2socks       []l2sock
-	ReadFileLog   []ReadFileRec
-	readFileErrIn int
-	TimeSkipped   int64
-	handlerBusyNs int64
+	Cfg             Config
+	Tape            *Tape
+	tasks           []*Task
+	cur             *Task
+	ctlR, ctlW      int
+	now             int64
+	Steps           int64
+	preemptIn       int64
+	events          []event
+	evSeq           uint64
+	ports           []*port
+	outbox          []*Capture
+	ended           []*Task
+	Inc             int
+	Hooks           Hooks
+	stop            bool
+	StopReason      string
+	Verdicts        []Verdict
+	ifaces          []Iface
+	pipePool        [][2]int
+	trace           []TraceRec
+	TraceOn         bool
+	switches        uint64 // hash of context-switch sequence while >=2 runnable
+	Switches        int64
+	crashAt         int64 // global step at which to crash (0 = none)
+	crashSites      []bool
+	crashFn         func(t *Task)
+	stallAt         int64
+	stallNs         int64
+	stallSites      []bool
+	Probes          []int64
+	files           []*simFile
+	watchers        []*Watcher
+	sqlFaultIn      int64 // countdown of sql driver calls until an injected failure; 0 = none
+	sqlFaultKind    int
+	SQLFaults       int64
+	SQLFaultTags    []int64 // datagrams whose handler saw an injected sql failure
+	dbs             []*trackedDB
+	FaultsFired     [NumFaultKinds]int64
+	poolReuse       int // 0: fifo fresh (no reuse), 1: PRNG choice, 2: always reuse most recent
+	fakeFD          int
+	l2socks         []l2sock
+	ReadFileLog     []ReadFileRec
+	readFileErrIn   int
+	TimeSkipped     int64
+	simPaths        []string
+	userLog         []UserRec
+	InotifyQueueMax int
+	handlerBusyNs   int64
 }
 
 // TraceRec is one recorded scheduling / world event (for replay files and samples).
@@ -614,6 +618,16 @@ func (s *Sim) ArmCrash(at int64, sites []bool, fn func(t *Task)) {
 	s.crashAt = at
 	s.crashSites = sites
 	s.crashFn = fn
+}
+
+// Disarm cancels pending crash, stall, sql and readfile faults ("faults stop").
+//
+//go:norace
+func (s *Sim) Disarm() {
+	s.crashAt = 0
+	s.stallAt = 0
+	s.sqlFaultIn = 0
+	s.readFileErrIn = 0
 }
 
 //go:norace
